@@ -3,25 +3,38 @@ CHECK = {
     "harness": "h-c07",
     "translators": ["c07_poseidon", "c07_sha"],
     "level": "proof",
-    "rule": "every message length of the boundary list for each byte hash; every actual length 0..MAX of each "
-            "var-len vector with zero and adversarial filler; Poseidon input lengths 0..12; distinctness by hash "
-            "of the request line",
-    "explanation": "Lean theorems over an executable model of the Poseidon code (textbook permutation, shifted "
-                   "rounds, round-skip identities, sponge, var-len selection) and over Lean reference SHA-256/512 "
-                   "with spread-arithmetic lemmas; constants regenerated from the Rust sources on every run; model "
-                   "tied to the implementation by running in-circuit (MockProver), off-circuit and Lean model on "
-                   "the same inputs, row traces of the Poseidon permutation region, and a table-level tamper sweep",
+    "rule": "byte hashes: every message length 0..2 blocks off circuit (4 blocks thorough) and every padding-boundary "
+            "length in circuit (55/56/63/64/111/112/119/120/127/128 ..., +1 block thorough); var-len vectors: every "
+            "actual length 0..MAX (Poseidon MAX 2..16; SHA-256 MAX 64/128 every length in thorough, boundary lengths "
+            "in quick) with zero and adversarial filler; Poseidon input lengths 0..12 in circuit (0..40 off circuit), "
+            "sponge scripts in both modes; distinctness by hash of the request line",
+    "explanation": "Lean theorems over an executable model of the Poseidon code (textbook permutation, shifted rounds, "
+                   "round-skip identities of round_skips.rs, sponge, var-len selection) for every state / skip count / "
+                   "table, over Lean reference SHA-256/512/RIPEMD-160 with the spread-table arithmetic of the chips, and "
+                   "a structural model of sha256_varlen; every constant table regenerated from the Rust sources on each "
+                   "run and proved to be the published one (Grain LFSR stream, cube/square roots of primes); model tied "
+                   "to the implementation by running in-circuit (real chips under MockProver), off-circuit and Lean "
+                   "model on the same inputs, by the row traces of the Poseidon permutation region (state, hints, "
+                   "skipped-row cells, fixed constants of every round row), by a table-level tamper sweep (H2) on the "
+                   "Poseidon and SHA-256 circuits and by consistent local forgeries of Poseidon round rows",
     "trusted_base": [
-        "RustCrypto sha2/sha3/ripemd and blake2b_simd as second oracles (RIPEMD-160, Keccak-256, SHA3-256, "
-        "BLAKE2b are compared with these crates only: test-level evidence)",
-        "third-party circuit crates sha3-circuit and blake2b_halo2 (only the repo's wrappers are exercised)",
+        "RustCrypto sha2/sha3/ripemd and blake2b_simd as second oracles; SHA3-256, Keccak-256 and BLAKE2b (third-party "
+        "circuit crates sha3-circuit and blake2b_halo2, only the repo's wrappers are exercised) are compared with these "
+        "crates only: test-level evidence (counters test-level:* in the distribution)",
+        "MockProver (with the additive-selector fix) as the acceptance predicate of the circuits",
     ],
-    "level_text": "Kernel-checked Lean theorems about an executable model of the Poseidon permutation/sponge code "
-                  "and about reference SHA-2 with the spread-table arithmetic, constants parsed from the sources, "
-                  "checked against the real chips (MockProver), the off-circuit functions and RustCrypto on every "
-                  "boundary length",
-    "level_note": "SHA-256/SHA-512/RIPEMD-160 chip wiring is covered by digest correspondence and tamper sampling, "
-                  "not by theorems; Keccak/SHA3/BLAKE2b circuits are third-party (wrappers only, test-level)",
-    "assumptions": ["the field modulus of the circuits is prime (Poseidon theorems hold over any commutative ring)"],
-    "timeout": {"quick": 900, "thorough": 3000, "search": 600},
+    "level_text": "Kernel-checked Lean theorems about an executable model of the Poseidon permutation/sponge/var-len "
+                  "code (all states, all skip counts, all lengths and fillers) and about reference SHA-2 with the "
+                  "spread arithmetic, padding and the Σ-gate tables of the chips, constants parsed from the sources and "
+                  "proved to be the published ones, checked against the real chips (MockProver), the off-circuit "
+                  "functions and RustCrypto at every boundary length",
+    "level_note": "The wiring of the SHA-256/SHA-512/RIPEMD-160 chips (which cells feed which gate) is covered by digest "
+                  "correspondence and tamper sampling, not by theorems; the var-len SHA-256 selection theorem is "
+                  "exhaustive for MAX_LEN 64/128 (partial); Keccak/SHA3/BLAKE2b circuits are third-party (test-level); "
+                  "Poseidon theorems are over an arbitrary commutative ring, the driver instance is integers mod p",
+    "assumptions": [
+        "the partial-round S-box position (cell WIDTH-1 instead of cell 0 of the Poseidon paper) is taken as part of "
+        "the specification of this Poseidon instance",
+    ],
+    "timeout": {"quick": 900, "thorough": 3000, "search": 900},
 }
